@@ -117,16 +117,39 @@ func backoffDriver(a *Args) {
 	var wg sync.WaitGroup
 	var trs []*hx.Tracer
 	sem := make(chan struct{}, 12)
-	for pi, pat := range patterns {
+	type loopCase struct {
+		pat string
+		cfg hx.AgentConfig
+	}
+	var loops []loopCase
+	for _, pat := range patterns {
+		loops = append(loops, loopCase{pat, hx.AgentConfig{}})
+	}
+	// the back-off does not depend on the agent's other settings (spec/AgentConfig.tla, Neutral.C08): nine failures
+	// in a row (delays up to 256 ms) under every configuration chosen for this run, twelve (up to 2 s) where the
+	// client time-out is shorter than the longest delay
+	cfgs := hx.AgentConfigs()
+	for _, cfg := range cfgs {
+		if cfg.Name() == "default" {
+			continue
+		}
+		pat := "FFFFFFFFF"
+		if cfg["timeout"] == "1s" {
+			pat = "FFFFFFFFFFFF"
+		}
+		loops = append(loops, loopCase{pat, cfg})
+	}
+	res.Extra["agent_configurations"] = len(cfgs)
+	for pi, lc := range loops {
 		t := hx.NewTracer(fmt.Sprintf("backoff-loop-%d", pi))
 		trs = append(trs, t)
 		wg.Add(1)
-		go func(pat string, pi int, t *hx.Tracer) {
+		go func(lc loopCase, pi int, t *hx.Tracer) {
 			defer wg.Done()
 			sem <- struct{}{}
 			defer func() { <-sem }()
-			backoffLoop(res, pat, pi, t)
-		}(pat, pi, t)
+			backoffLoop(res, lc.pat, pi, t, lc.cfg)
+		}(lc, pi, t)
 	}
 	wg.Wait()
 	for _, t := range trs {
@@ -173,8 +196,12 @@ func failList(w http.ResponseWriter, kind string) {
 	}
 }
 
-func backoffLoop(res *hx.Result, pattern string, pi int, tr *hx.Tracer) {
-	tr.Emit("Reset", "seg", fmt.Sprintf("backoff-loop-%d-%s", pi, pattern), "sig", "backoff-loop:"+pattern)
+func backoffLoop(res *hx.Result, pattern string, pi int, tr *hx.Tracer, cfg hx.AgentConfig) {
+	cfgName := ""
+	if cfg.Name() != "default" {
+		cfgName = "@" + cfg.Name()
+	}
+	tr.Emit("Reset", "seg", fmt.Sprintf("backoff-loop-%d-%s", pi, pattern), "sig", "backoff-loop:"+pattern+cfgName)
 	tr.Emit("Cfg", "threshold", 2, "health", false, "grace_ms", 0, "latency_ms", 0)
 	md := hx.StartMetadata()
 	defer md.Close()
@@ -219,7 +246,7 @@ func backoffLoop(res *hx.Result, pattern string, pi int, tr *hx.Tracer) {
 		case <-time.After(20 * time.Second):
 		}
 	}
-	agent, err := hx.StartAgent(hx.Bin("agent"), md, proxyURL, "127.0.0.1:1", "agent", nil, tr.Env())
+	agent, err := hx.StartAgentCfg(hx.Bin("agent"), md, proxyURL, "127.0.0.1:1", "agent", cfg, nil, tr.Env())
 	if err != nil {
 		res.Bad("agent: %v", err)
 		return
@@ -246,7 +273,7 @@ func backoffLoop(res *hx.Result, pattern string, pi int, tr *hx.Tracer) {
 		tr.Emit("StillAlive")
 	}
 	agent.Kill()
-	res.Case("loop:"+pattern, map[string]interface{}{"list_call_pattern": pattern})
+	res.Case("loop:"+pattern+cfgName, map[string]interface{}{"list_call_pattern": pattern, "agent_configuration": cfg.Name()})
 }
 
 // lifeDriver: C20. Health histories (TLC-enumerated) and signal placements against the real agent.
